@@ -59,7 +59,18 @@ def requests(r, n):
         elif kind == "solve_ok":
             # valid, including exactly on the boundary / corners
             def valid():
-                return [o[a] + float(r.choice([0.0, 1.0, r.uniform(0, 1)])) * ext[a] for a in range(nd)]
+                # "valid" as the code sees it: 0 <= src - origin <= n * d in double arithmetic (a far-boundary coordinate
+                # origin + n * d can round up to a double that lies outside the model by less than one ulp)
+                p = []
+                for a in range(nd):
+                    c = o[a] + float(r.choice([0.0, 1.0, r.uniform(0, 1)])) * ext[a]
+                    hi = m["gridsize"][a] * m["shape"][a]
+                    while c - o[a] > hi:
+                        c = float(np.nextafter(c, -np.inf))
+                    while c - o[a] < 0.0:
+                        c = float(np.nextafter(c, np.inf))
+                    p.append(c)
+                return p
             form = str(r.choice(["single", "list"]))
             srcs = valid() if form == "single" else [valid() for _ in range(L)]
             if any(abs(x) > 1e3 for x in o):
@@ -73,14 +84,23 @@ def requests(r, n):
             mext = [(m["shape"][a]) * m["gridsize"][a] for a in range(nd)]
             if kind == "ray_bad_end":
                 bad, why = outside_point(r, mext, o, how)
-                pts = bad if form == "single" else [bad if k == pos else inside() for k in range(L)]
-                out.append(dict(base, kind="raytrace", source=src, points=pts, kw={"honor_grid": hg},
+                # the other items of a list must themselves be requests that cannot fail: real rays only where the main
+                # clause of C10 guarantees arrival (homogeneous, equal spacings, free step), else zero-length rays
+                eqs = all(abs(m["gridsize"][a] - m["gridsize"][0]) < 1e-12 for a in range(nd))
+                real = eqs and not hg
+                pts = bad if form == "single" else [bad if k == pos else (inside() if real else list(src)) for k in range(L)]
+                extra = {"grid": np.full(m["shape"], 2.0)} if (form == "list" and real) else {}
+                out.append(dict(base, kind="raytrace", source=src, points=pts, kw={"honor_grid": hg}, **extra,
                                 expect="ValueError:endpoint", meta={"req": kind, "form": form, "L": L, "pos": pos, "why": why, "nd": nd}))
             elif kind == "ray_budget":
-                far = [o[a] + (0.98 if src[a] - o[a] < 0.5 * ext[a] else 0.02) * ext[a] for a in range(nd)]
+                # a budget of 2 stored vertices is certainly insufficient: source in the first cell along axis 0, end point
+                # in the last of >= 5 cells (>= 4 grid planes crossed: one stored vertex each; >= 4 free steps of min(d))
+                shb = (int(r.integers(5, 8)),) + tuple(m["shape"][1:])
+                src = [o[0] + 0.5 * m["gridsize"][0]] + [src[a] for a in range(1, nd)]
+                far = [o[0] + (shb[0] - 0.5) * m["gridsize"][0]] + [o[a] + float(r.uniform(0.05, 0.95)) * ext[a] for a in range(1, nd)]
                 pts = far if form == "single" else [far if k == pos else src for k in range(L)]
                 out.append(dict(base, kind="raytrace", source=src, points=pts, kw={"honor_grid": hg, "max_step": 2},
-                                expect="RuntimeError:maxsteps", grid=np.full(m["shape"], 2.0),
+                                expect="RuntimeError:maxsteps", grid=np.full(shb, 2.0),
                                 meta={"req": kind, "form": form, "L": L, "pos": pos, "nd": nd}))
             else:
                 pts = inside() if form == "single" else [inside() for _ in range(L)]
